@@ -44,8 +44,14 @@ def case_exact(case):
             if not np.all(np.isfinite(ref.ztilde())):
                 continue
             kw = {"ext_drift": ext_c} if variant in C05.EXTV else {}
+            # (first a request at positions that agree with the stations within numpy.allclose, then the stations)
+            k(cp * (1 + 3e-6), **kw)
             f, v = k(cp, **kw)
             tol = max(1e-8, 1e2 * ref.tol(float(np.abs(zz).max())))
+            if n >= 3:
+                fc_, vc_ = k(cp, chunk_size=2, **kw)
+                r.close("field at the conditioning locations independent of chunk_size", fc_, f, rtol=1e-10, atol=1e-12, proc=list(proc), pinv=pinv, **extra)
+                r.close("variance at the conditioning locations independent of chunk_size", vc_, v, rtol=1e-10, atol=1e-12, proc=list(proc), pinv=pinv, **extra)
             r.close("field at a conditioning location == conditioning value", f, zz, rtol=1e-8, atol=tol, proc=list(proc), pinv=pinv, **extra)
             r.true("kriging variance at a conditioning location == 0", bool(np.all(np.abs(v) <= 1e-8 * ref.sill + 1e2 * kr.EPS * ref.cond * ref.sill)), info=v.tolist(), proc=list(proc), pinv=pinv, **extra)
             kwt = {"ext_drift": ext_t} if variant in C05.EXTV else {}
